@@ -33,6 +33,10 @@ Definition c_MutableSequence : N := 23. Definition c_Mapping : N := 24. Definiti
 Definition c_AbstractSet : N := 26. Definition c_Container : N := 30. Definition c_Reversible : N := 31.
 Definition c_MutableSet : N := 32.
 
+(* classes that pyanalyze compares structurally (typeshed protocols) and Callable: the dumped
+   `tassign` is not transitive through them (object is Hashable, list is not) *)
+Definition protocol_like (d : N) : bool := existsb (N.eqb d) [27; 28; 20; 21; 30; 31; 29]%N.
+
 (* SPEC: runtime subclassing plus the numeric promotions of the typing spec
    (int -> float -> complex; bool is an int) *)
 Definition sub_promo (ct : class_table) (c d : N) : bool :=
